@@ -285,3 +285,16 @@ func OpenPlugin(filepath string) {
 		}
 	}
 }
+
+// primaryValue returns the first value if v is multiple values, nil if there
+// are none, otherwise v. Tests in conditional forms use only the primary
+// value of the test form.
+func primaryValue(v slip.Object) slip.Object {
+	if vs, ok := v.(slip.Values); ok {
+		if len(vs) == 0 {
+			return nil
+		}
+		return vs[0]
+	}
+	return v
+}
